@@ -267,7 +267,7 @@ def c15_case(r):
         for i, p in enumerate(parts):
             q = r.choice([b'"', b"'"])
             if i:
-                out += r.choice([b" + ", b"+", b" & ", b"&", b" &amp; ", b"&amp;", b" +\n", b" _\r\n& ", b"\t+\t", b" _\n + _\n "])
+                out += r.choice([b"&amp;", b" _\n + _\n ", layers.spacer(r), layers.spacer(r)])
             out += q + p + q
         tail = r.choice([b"", b"", b" + y", b" & zzq", b";", b")", b" &", b" + chr", b"+y"])
         rec = rec_single(r, "concat", "string", "concatenation", out, plain)
@@ -307,3 +307,67 @@ def c15_case(r):
         return None
     blob = q1 + x + q1 + b".replace(/" + a + b"/" + r.choice([b"", b"g", b"gi", b"gim"]) + ws() + b"," + ws() + q3 + b + q3 + ws() + b")"
     return rec_single(r, "jsrereplace", "javascript.string", "replace", blob, plain)
+
+
+# -- size limits -------------------------------------------------------------
+# Lengths beyond every plausible hard-coded limit (command-line length 8191, MAX_PATH 260, 64 KiB, ...): an expression is
+# one unit whatever its length.
+
+BIG_SIZES = [3000, 8200, 20000, 66000, 140000]
+
+
+def big_text(r, n, alpha=None):
+    if alpha is not None:
+        return bytes(r.choice(alpha) for _ in range(n))
+    out = bytearray()
+    while len(out) < n:
+        out += r.choice(netgen.NEUTRAL_WORDS) + b" "
+    return bytes(out[:n - 1]) + b"q"
+
+
+def big_cases(pid, r, sizes=None):
+    """Endless stream of (form, size, rec-or-None)."""
+    sizes = sizes or BIG_SIZES
+    forms = {"C13": ["b64", "atob", "Base64Decode", "FromBase64String", "hex", "HEX", "FromHexString", "psbytes", "b64-linebroken"],
+             "C14": ["xmldec", "xmlhex", "xmlmix", "unescape", "utf16"],
+             "C15": ["concat-many", "concat-long", "reverse", "StrReverse", "replace", "vbareplace", "psreplace", "jsrereplace"]}[pid]
+    while True:
+        for form in forms:
+            for n in sizes:
+                yield form, n, _big_one(r, form, n)
+
+
+def _big_one(r, form, n):
+    if form == "psbytes":
+        p = big_text(r, max(501, n // 4))
+        e = layers.BY_NAME["psbytes"]
+        return rec_single(r, e.name, e.type, e.label, e.enc(p, r), p, wrap_p=0)
+    if form == "b64-linebroken":
+        p = big_text(r, n)
+        t = base64.b64encode(p)
+        width = r.choice([64, 76])
+        chunks = [t[i:i + width] for i in range(0, len(t), width)]
+        if len(chunks[-1].rstrip(b"=")) < 4:
+            return None
+        return rec_single(r, "b64-linebroken", "", "encoding.base64", r.choice([b"\n", b"\r\n", b"&#xD;&#xA;"]).join(chunks), p, wrap_p=0)
+    if form in ("concat-many", "concat-long"):
+        k = max(2, n // 12) if form == "concat-many" else r.randint(2, 4)
+        size = 8 if form == "concat-many" else n // k
+        parts = [big_text(r, size) for _ in range(k)]
+        out = b""
+        for i, part in enumerate(parts):
+            q = r.choice([b'"', b"'"])
+            if i:
+                out += layers.spacer(r)
+            out += q + part + q
+        return rec_single(r, "concat", "string", "concatenation", out, b"".join(parts), wrap_p=0)
+    if form in layers.BY_NAME:
+        e = layers.BY_NAME[form]
+        p = big_text(r, n if form not in ("xmldec", "xmlhex", "xmlmix") else n // 5)
+        if not e.dom(p):
+            return None
+        blob = e.enc(p, r)
+        if blob is None:
+            return None
+        return rec_single(r, e.name, e.type, e.label, blob, p, e.delims, e.value_prefix + p, wrap_p=0)
+    raise ValueError(form)
